@@ -214,7 +214,7 @@ struct PmModel {
           // and, read back through get_pivot, the cell the specification puts at position i+1 (the former cell i)
           okret = (r == c1 || r == c2);
           if constexpr (!id_indexed) { if (okret && m->get_pivot(r) != cells[i].id) okret = false; }
-          out["ret"] = static_cast<std::int64_t>(r == c1 ? 1 : (r == c2 ? 2 : 0));
+          out["retcol"] = static_cast<std::int64_t>(r == c1 ? 1 : (r == c2 ? 2 : 0));
         }
         out["ret_ok"] = okret;
         std::swap(cells[i], cells[i + 1]);
@@ -472,6 +472,8 @@ struct PmModel {
       }
     }
     if (g_log_matrices) {
+      o["fl"] = is_chain ? "chain" : (is_ru ? "ru" : "boundary");
+      o["z2"] = Opt::is_z2;
       o["R"] = Rj;
       if (!Uj.empty()) o["U"] = Uj;
       bj::array B;
